@@ -279,7 +279,10 @@ PROPS = {
                   ("Bug_DeletePinned", CORE, "MC_RainCore_pins.cfg", None)],
         work=[dict(driver="hist", args=["--nops", "60", "--per-file", "6", "--max-snaps", "4",
                                         "--max-iters", "3", "--snap-bias", "1"],
-                   quick=48, thorough=1200)]),
+                   quick=48, thorough=1200),
+              # snapshots and iterators taken while a writer is suspended inside its commit
+              dict(driver="sched", args=["--all"], quick=1, thorough=6, trace=CONC_TRACE,
+                   final_rc3=True)]),
     "C07": dict(
         design=[(CORE, [Q1], ["MC_RainCore_small.cfg", "MC_RainCore_pins.cfg"])],
         switches=[("Bug_NoBoundary", CORE, Q1, None), ("Bug_DropTombNoBase", CORE, Q1, None),
